@@ -81,6 +81,28 @@ func LoadPackage(dir string, specFiles []string) (*Engine, error) {
 		}
 		e.funcs[relName(fn)] = fn
 	}
+	// methods of (generic) named types that nothing in the package calls
+	scope := e.pkg.Pkg.Scope()
+	for _, nm := range scope.Names() {
+		tn, ok := scope.Lookup(nm).(*types.TypeName)
+		if !ok {
+			continue
+		}
+		named, ok := tn.Type().(*types.Named)
+		if !ok {
+			continue
+		}
+		for i := 0; i < named.NumMethods(); i++ {
+			if fn := prog.FuncValue(named.Method(i)); fn != nil {
+				if _, have := e.funcs[relName(fn)]; !have {
+					e.funcs[relName(fn)] = fn
+					for _, anon := range fn.AnonFuncs {
+						e.funcs[relName(anon)] = anon
+					}
+				}
+			}
+		}
+	}
 	return e, nil
 }
 
